@@ -282,16 +282,18 @@ def run(ctx):
     tables = c15.gen_tables(scratch)
     mr = ctx.pick(1, 2)
     wide = ctx.pick("FALSE", "TRUE")
-    sim_future = None
-    nsim = 2500
+    sim_futures = []
+    nsim, nsplit = 2500, 4
     if mr == 1:
         # pairs of restricted keys: random walks of the same machine with MaxRestr = 2 (class "full" only: the
-        # walks would otherwise almost all end in the much more numerous real-table configurations); one worker,
-        # started now so that it runs alongside the exhaustive exploration
+        # walks would otherwise almost all end in the much more numerous real-table configurations); nsplit
+        # single-worker TLC processes with seeds derived from ctx.seed, started now so that they run alongside the
+        # exhaustive exploration and the execution of the single-restriction tables
         from concurrent.futures import ThreadPoolExecutor
 
-        pool = ThreadPoolExecutor(1)
-        sim_future = pool.submit(tlc.run, "LevelTables", c15.read_cfg("LevelTables.cfg", MaxRestr=2, Modes='{"full"}'), simulate=nsim, depth=DONE + 1, seed=ctx.seed, workers=1, coverage=False, extra_files=[tables], timeout=3000)
+        pool = ThreadPoolExecutor(nsplit)
+        for j in range(nsplit):
+            sim_futures.append(pool.submit(tlc.run, "LevelTables", c15.read_cfg("LevelTables.cfg", MaxRestr=2, Modes='{"full"}'), simulate=nsim // nsplit, depth=DONE + 1, seed=ctx.seed * nsplit + j, workers=1, coverage=False, extra_files=[tables], timeout=3000, heap="2g"))
         pool.shutdown(wait=False)
     res = tlc.run("LevelTables", c15.read_cfg("LevelTables.cfg", MaxRestr=mr, Wide=wide), dump=True, coverage=False, extra_files=[tables], timeout=3000)
     phase("tlc_exhaustive")
@@ -318,14 +320,14 @@ def run(ctx):
     events = common.pmap(exec_case, [(i + 1, c) for i, c in enumerate(first)])
     phase("implementation_singles_and_real")
     if mr == 1:
-        sim = sim_future.result()
         seen = set()
-        for c in c15.sim_finals(sim.sim_dir, DONE):
-            k = repr(sorted((thaw(r)["key"], thaw(r)["kind"]) for r in c["restr"])) + c["cfg"]["name"] + c["pattern"]
-            if len(c["restr"]) == 2 and k not in seen:
-                seen.add(k)
-                pairs.append(c)
-        pair_note = "%d distinct pairs from %d TLC -simulate walks (MaxRestr=2, class full)" % (len(pairs), nsim)
+        for fut in sim_futures:
+            for c in c15.sim_finals(fut.result().sim_dir, DONE):
+                k = repr(sorted((thaw(r)["key"], thaw(r)["kind"]) for r in c["restr"])) + c["cfg"]["name"] + c["pattern"]
+                if len(c["restr"]) == 2 and k not in seen:
+                    seen.add(k)
+                    pairs.append(c)
+        pair_note = "%d distinct pairs from %d TLC -simulate walks (MaxRestr=2, class full; %d processes)" % (len(pairs), nsim, nsplit)
     else:
         rnd.shuffle(pairs)
         npairs = len(pairs)
